@@ -181,6 +181,17 @@ class World:
             return {"live": False}
         return self.fx.project(s)
 
+    def ids_of(self, pmap, e, key):
+        """a request of an explored history (plate names + 'some id names no plate') as ids of the real object"""
+        names, unk = {"S": ("Sn", "unk"), "P": ("Pn", None)}[key]
+        if names not in e:
+            return list(e[key])
+        by_name = {int(t): int(i) for t, i in pmap}
+        ids = sorted(by_name[t] for t in e[names] if t in by_name)
+        if unk and e.get(unk):
+            ids = [-1] + ids + [max([i for _, i in pmap] + [-1]) + 1]
+        return ids
+
     def names_of(self, pmap, ids):
         """the plate-name tokens the requested plate ids stand for in the real object (and whether some id names no plate)"""
         by_id = {int(i): int(t) for t, i in pmap}
@@ -211,7 +222,8 @@ class World:
                     ev["sel"] = sorted(x + 1 for x in rng.picked)
         elif op == "reveal":
             s = self.scr[e["h"]]
-            ids = list(e["S"]) + ([e["S"][0]] if e.get("repeat") and e["S"] else [])
+            ev["S"] = self.ids_of(fx.project(s)["pmap"], e, "S")
+            ids = list(ev["S"]) + ([ev["S"][0]] if e.get("repeat") and ev["S"] else [])
             ev["Sn"], ev["unk"] = self.names_of(fx.project(s)["pmap"], ids)
             before = json.dumps(fx.project(s), sort_keys=True)
             st, r = outcome(R.reveal_plates, s, ids)
@@ -236,18 +248,23 @@ class World:
                 self.scr[e["h"]] = r
         elif op == "set_observed":
             s = self.scr[e["h"]]
-            ev["Pn"], _ = self.names_of(fx.project(s)["pmap"], list(e["P"]))
-            sel = np.isin(s.plate_ids, list(e["P"]))
+            ev["P"] = self.ids_of(fx.project(s)["pmap"], e, "P")
+            ev["Pn"], _ = self.names_of(fx.project(s)["pmap"], list(ev["P"]))
+            sel = np.isin(s.plate_ids, list(ev["P"]))
             vals = np.array([fx.newval(i + 1) for i in range(s.size) if sel[i]], dtype=float)
             st, r = outcome(s.set_observed, sel, vals)
             if st != "ok":
                 self.raised = "set_observed raised: " + r
         elif op == "merge":
             s = self.scr[e["h"]]
-            an, _ = self.names_of(fx.project(s)["pmap"], [e["a"]])
-            bn, _ = self.names_of(fx.project(s)["pmap"], [e["b"]])
+            pm = fx.project(s)["pmap"]
+            if "an" in e:          # an explored history names the plates; the real object says which ids they have
+                by_name = {int(t): int(i) for t, i in pm}
+                ev["a"], ev["b"] = by_name.get(e["an"], 10 ** 6), by_name.get(e["bn"], 10 ** 6)
+            an, _ = self.names_of(pm, [ev["a"]])
+            bn, _ = self.names_of(pm, [ev["b"]])
             ev["an"], ev["bn"] = (an + [99])[0], (bn + [99])[0]
-            st, r = outcome(lambda: s.get_plate(e["a"]).merge(s.get_plate(e["b"])))
+            st, r = outcome(lambda: s.get_plate(ev["a"]).merge(s.get_plate(ev["b"])))
             if st != "ok":
                 self.raised = "Plate.merge raised: " + r
         elif op == "save":
@@ -265,8 +282,9 @@ class World:
         elif op == "cli_reveal":
             from batchie.cli import reveal_plate
             out = self.fn(e["q"]) + ".new"
-            ev["Sn"], ev["unk"] = self.names_of(self.fproj[e["p"]].get("pmap", []), list(e["S"]))
-            st, r = _cli(reveal_plate.main, ["--screen", self.fn(e["p"]), "--output", out, "--plate-id"] + [str(x) for x in e["S"]])
+            ev["S"] = self.ids_of(self.fproj[e["p"]].get("pmap", []), e, "S")
+            ev["Sn"], ev["unk"] = self.names_of(self.fproj[e["p"]].get("pmap", []), list(ev["S"]))
+            st, r = _cli(reveal_plate.main, ["--screen", self.fn(e["p"]), "--output", out, "--plate-id"] + [str(x) for x in ev["S"]])
             if st == "ok":
                 os.replace(out, self.fn(e["q"]))
                 ev["refused"] = False
